@@ -20,7 +20,13 @@ TRIPS = []
 _ADDR = re.compile(r'0x[0-9a-fA-F]+')
 
 
+_INSTALLED = [False]
+
+
 def install_tripwires():
+    if _INSTALLED[0]:
+        return
+    _INSTALLED[0] = True
     import random as _random
     import os as _os
     import time as _time
@@ -160,7 +166,7 @@ def run_check(tier, base_seed, quiet=False):
     try:
         procs = []
         # (two values are not enough: the order of a two-element set is the same under about half of all seeds)
-        hashseeds = ['1', '31337', '2', '77'] if tier == 'quick' else ['1', '31337', '2', '77', '3', '99', '4242', '65537']
+        hashseeds = ['1', '31337', '2', '77'] if (tier == 'quick' and not os.environ.get('C28_ALL_SEEDS')) else ['1', '31337', '2', '77', '3', '99', '4242', '65537']
         nsh = 16 // len(hashseeds)
         for hs in hashseeds:
             for sh in range(nsh):
@@ -203,7 +209,7 @@ def run_check(tier, base_seed, quiet=False):
             violations.append((sig, p2))
         else:
             harness.append('C28 mismatch did not reproduce: %s' % p2)
-        if len(violations) >= 5:
+        if len(violations) >= 5 or len(harness) >= 20:
             break
     wall = time.time() - t0
     nontriv = set(r['abs'] for r in recs if r['steps'] > 10)
